@@ -84,6 +84,10 @@ def classes():
     _CLASSES["node"] = type("HNode", (Node,), dict(HOOKS))
     _CLASSES["anynode"] = type("HAnyNode", (AnyNode,), dict(HOOKS))
     _CLASSES["symlink"] = type("HSymlink", (SymlinkNode,), dict(HOOKS))
+    # classes WITHOUT harness hooks (the library's own one-frame default hooks): used for stack-exhaustion faults, where
+    # the deep harness hooks would always be the first place to run out of stack
+    _CLASSES["bare"] = type("BareMixin", (NodeMixin,), {})
+    _CLASSES["bare:light"] = type("BareLight", (LightNodeMixin,), {"__slots__": ()})
     _CLASSES["TreeError"] = anytree.TreeError
     _CLASSES["LoopError"] = anytree.LoopError
     from . import traps
@@ -103,6 +107,8 @@ KINDS = {
     "cross": ("mixin", "light"),
     "symmix": ("node", "node", "symlink>a", "symlink>c", "symlink>b"),
     "symlight": ("light", "symlink>a", "light", "node"),  # a link whose target is a LightNodeMixin node, next to both mixins
+    "bare": ("bare",),
+    "bare:light": ("bare:light",),
     "named": ("named",),
     "named:light": ("named:light",),
 }
@@ -170,7 +176,7 @@ class Universe(object):
             kw["id"] = lbl
             kw["name"] = lbl  # Node.__repr__ (used in error messages) needs a name on every ancestor of a Node
             node = make(cls["anynode"])
-        elif ck in ("mixin", "light"):
+        elif ck in ("mixin", "light", "bare", "bare:light"):
             if kw:
                 raise core.HarnessError("mixin classes have no constructor arguments")
             node = make(cls[ck])
